@@ -241,10 +241,14 @@ def build_table(ctx, rng):
     for desc, costs, ndim in (("None", None, None), ("1d_right", np.zeros(nf), 1), ("2d", np.zeros((nf, 1)), 2), ("0d", np.float64(1.0), 0), ("3d", np.zeros((2, 2, 2)), 3)):
         real = outcome(lambda: CCQR(sensor_costs=costs))
         T.add(f"CCQR(sensor_costs={desc})", real, None if ndim in (None, 1) else "E:ValueError", f"vrule ccqrctor {C.enc_optnat(ndim)}")
-    for desc, ln in (("short", nf - 1), ("long", nf + 2), ("right", nf), ("None", None)):
-        costs = None if ln is None else np.zeros(ln)
+    for desc, ln in (("short", nf - 1), ("long", nf + 2), ("right", nf), ("None", None), ("empty", 0), ("one", 1), ("two", 2),
+                     ("double", 2 * nf)):
+        costs = None if ln is None else np.ones(ln)
         real = outcome(lambda: CCQR(sensor_costs=costs).fit(Bm.copy()))
         T.add(f"CCQR(len={desc}).fit", real, None if ln in (None, nf) else "E:ValueError", f"vrule ccqrfit {C.enc_optnat(ln)} {nf}")
+        if ln is not None:
+            real = outcome(lambda: SSPOR(basis=Identity(), optimizer=CCQR(sensor_costs=costs)).fit(X.copy(), quiet=True))
+            T.add(f"SSPOR(CCQR(len={desc})).fit", real, None if ln == nf else "E:ValueError", f"vrule ccqrfit {C.enc_optnat(ln)} {nf}")
     for name in ("", "max_n", "exact_n", "predetermined", "bogus", "MAX_N", "exact", "none"):
         kw = {"idx_constrained": np.array([0, 1]), "n_sensors": 2, "n_const_sensors": 1, "all_sensors": np.array(QR().fit(Bm.copy()).get_sensors()).copy(),
               "constraint_option": name}
